@@ -287,4 +287,266 @@ theorem renderFrameS_adjOk (joins : String → String → Bool) (cw : String →
       | cons k rest => cases k <;> simp_all [startsQuiet]
   exact flush_adjOk joins f.caps f.cursorNext f.cursorLast _ hbody
 
+/-! ### the tight form: only horizontally consecutive *shown* cells matter -/
+
+/-- The glyph tokens of the cells the loop visits (the heads of the row walk: a cell covered by a
+    wide glyph to its left is jumped over), in order; an image cell is a separator (the loop writes
+    nothing for it and re-addresses the cursor afterwards). -/
+def headToks (cw : String → Nat) (caps : Caps) : Nat → List Cell → List Tok
+  | _, [] => []
+  | skip + 1, _ :: ns => headToks cw caps skip ns
+  | 0, n0 :: ns =>
+      if n0.sixel then Tok.other "" :: headToks cw caps 0 ns
+      else glyphTok cw caps (clipCell cw (ns.length + 1) n0) ::
+        headToks cw caps (advance cw (clipCell cw (ns.length + 1) n0)) ns
+
+def tokText : Tok → Option String
+  | .text g => some g
+  | _ => none
+
+theorem adjOk_tail (joins : String → String → Bool) (p : Option String) (k : Tok) (rest : List Tok)
+    (h : adjOk joins p (k :: rest) = true) : adjOk joins (tokText k) rest = true := by
+  cases k <;> simp_all [adjOk, tokText]
+
+theorem adjOk_head (joins : String → String → Bool) (a b : String) (rest : List Tok)
+    (h : adjOk joins (some a) (Tok.text b :: rest) = true) : joins a b = false := by
+  simp only [adjOk, Bool.and_eq_true] at h
+  simpa using h.1
+
+theorem adjOk_none_of (joins : String → String → Bool) (p : Option String) (l : List Tok)
+    (h : adjOk joins p l = true) : adjOk joins none l = true := by
+  cases l with
+  | nil => rfl
+  | cons k rest => cases k <;> simp_all [adjOk]
+
+/-- A non-empty run of control sequences in front: what follows starts afresh. -/
+theorem adjOk_ctl_prefix (joins : String → String → Bool) (a X : List Tok) (h : ∀ k ∈ a, ∀ g, k ≠ Tok.text g) :
+    ∀ p, adjOk joins p (a ++ X) = if a = [] then adjOk joins p X else adjOk joins none X := by
+  induction a with
+  | nil => intro p; simp
+  | cons k rest ih =>
+    intro p
+    have hk := h k List.mem_cons_self
+    have ih' := ih (fun k' hk' => h k' (List.mem_cons_of_mem _ hk'))
+    have : adjOk joins p (k :: (rest ++ X)) = adjOk joins none (rest ++ X) := by
+      cases k with
+      | text g => exact absurd rfl (hk g)
+      | _ => rfl
+    simp only [List.cons_append, this, ih' none]
+    split <;> simp
+
+theorem glyphTok_cases (cw : String → Nat) (caps : Caps) (c : Cell) :
+    (∃ g, glyphTok cw caps c = Tok.text g) ∨ (∃ w g, glyphTok cw caps c = Tok.textW w g) := by
+  unfold glyphTok glyphTokW
+  split
+  · exact Or.inl ⟨_, rfl⟩
+  · split
+    · exact Or.inr ⟨_, _, rfl⟩
+    · exact Or.inl ⟨_, rfl⟩
+
+/-- The row invariant in its tight form.  `p` = the grapheme written raw by the directly preceding
+    token when `reposition` is false. -/
+theorem renderCellsS_adj (joins : String → String → Bool) (cw : String → Nat) (caps : Caps) (refresh : Bool) (row : Nat) :
+    ∀ (next last : List Cell) (col skip : Nat) (track : Bool) (dirty : Nat) (st : RSt) (p : Option String),
+      adjOk joins p (headToks cw caps skip next) = true →
+      ∃ extra, (renderCellsS cw caps refresh row col skip track dirty next last st).2.out = st.out ++ extra ∧
+        (st.reposition = true → startsQuiet extra = true ∧ adjOk joins none extra = true) ∧
+        (st.reposition = false → adjOk joins p extra = true) := by
+  intro next
+  induction next with
+  | nil =>
+    intro last col skip track dirty st p _
+    exact ⟨[], by simp [renderCellsS], fun _ => ⟨rfl, rfl⟩, fun _ => rfl⟩
+  | cons n0 ns ih =>
+    intro last col skip track dirty st p hH
+    -- from a conclusion for a state with `reposition = true`
+    have lift : ∀ (e : List Tok), startsQuiet e = true ∧ adjOk joins none e = true →
+        (st.reposition = true → startsQuiet e = true ∧ adjOk joins none e = true) ∧
+        (st.reposition = false → adjOk joins p e = true) := by
+      intro e he
+      exact ⟨fun _ => he, fun _ => by rw [adjOk_quiet joins p e he.1]; exact he.2⟩
+    cases last with
+    | nil => exact ⟨[], by simp [renderCellsS], fun _ => ⟨rfl, rfl⟩, fun _ => rfl⟩
+    | cons l ls =>
+      cases skip with
+      | succ k =>
+        simp only [renderCellsS]
+        simp only [headToks] at hH
+        exact ih ls (col + 1) k track _ st p hH
+      | zero =>
+        simp only [renderCellsS]
+        by_cases hsx : n0.sixel = true
+        · simp only [hsx, if_true]
+          simp only [headToks, hsx, if_true] at hH
+          obtain ⟨e, he, h1, _⟩ := ih ls (col + 1) 0 false
+            (if col + advance cw l + 1 > dirty then col + advance cw l + 1 else dirty) { st with reposition := true } none
+            (adjOk_tail joins p _ _ hH)
+          exact ⟨e, he, lift e (h1 rfl)⟩
+        · simp only [hsx, Bool.false_eq_true, if_false]
+          simp only [headToks, hsx, Bool.false_eq_true, if_false] at hH
+          have hrest := adjOk_tail joins p _ _ hH
+          split
+          · obtain ⟨e, he, h1, _⟩ := ih ls (col + 1) (advance cw (clipCell cw (ns.length + 1) n0)) false dirty
+              { st with reposition := true } _ hrest
+            exact ⟨e, he, lift e (h1 rfl)⟩
+          · generalize hpre : (if st.reposition = true then
+                (if st.pen.link ≠ "" then [Tok.osc8 "" ""] else []) ++ [Tok.cup (↑row + 1) (↑col + 1)] else []) = pre
+            generalize hpen : (if st.reposition = true ∧ st.pen.link ≠ "" then
+                ({ st.pen with link := "", linkParams := "" } : Style) else st.pen) = pen
+            obtain ⟨e, he, _, h2⟩ := ih ls (col + 1) (advance cw (clipCell cw (ns.length + 1) n0)) true
+              (if col + advance cw l + 1 > dirty then col + advance cw l + 1 else dirty)
+              { reposition := false, pen := (clipCell cw (ns.length + 1) n0).style,
+                out := st.out ++ (pre ++ penDelta caps pen (clipCell cw (ns.length + 1) n0).style ++
+                  [glyphTok cw caps (clipCell cw (ns.length + 1) n0)]) } _ hrest
+            have h2' := h2 rfl
+            refine ⟨(pre ++ penDelta caps pen (clipCell cw (ns.length + 1) n0).style ++
+                  [glyphTok cw caps (clipCell cw (ns.length + 1) n0)]) ++ e, ?_, ?_, ?_⟩
+            · rw [he]; simp only [List.append_assoc]
+            · -- reposition was set: the cell's tokens begin with OSC 8 / CUP
+              intro hr
+              have hpre' : pre = (if st.pen.link ≠ "" then [Tok.osc8 "" ""] else []) ++ [Tok.cup (↑row + 1) (↑col + 1)] := by
+                rw [← hpre]; simp [hr]
+              have hctl : ∀ k ∈ pre ++ penDelta caps pen (clipCell cw (ns.length + 1) n0).style, ∀ g, k ≠ Tok.text g := by
+                intro k hk g hg
+                rcases List.mem_append.1 hk with hk | hk
+                · rw [hpre'] at hk
+                  simp only [List.mem_append, List.mem_singleton] at hk
+                  rcases hk with hk | hk
+                  · split at hk <;> simp at hk; subst hk; cases hg
+                  · subst hk; cases hg
+                · exact penDelta_no_text caps pen _ k hk g hg
+              have hne : pre ++ penDelta caps pen (clipCell cw (ns.length + 1) n0).style ≠ [] := by
+                rw [hpre']; split <;> simp
+              constructor
+              · rw [hpre']; split <;> rfl
+              · have := adjOk_ctl_prefix joins _ ([glyphTok cw caps (clipCell cw (ns.length + 1) n0)] ++ e) hctl none
+                simp only [hne, if_false] at this
+                rw [show (pre ++ penDelta caps pen (clipCell cw (ns.length + 1) n0).style ++
+                    [glyphTok cw caps (clipCell cw (ns.length + 1) n0)]) ++ e =
+                    (pre ++ penDelta caps pen (clipCell cw (ns.length + 1) n0).style) ++
+                    ([glyphTok cw caps (clipCell cw (ns.length + 1) n0)] ++ e) by simp only [List.append_assoc]]
+                rw [this]
+                rcases glyphTok_cases cw caps (clipCell cw (ns.length + 1) n0) with ⟨g, hg⟩ | ⟨w, g, hg⟩
+                · rw [hg] at h2' ⊢; simpa [adjOk, tokText] using h2'
+                · rw [hg] at h2' ⊢; simpa [adjOk, tokText] using h2'
+            · -- reposition was not set: no CUP; the pen delta (if any) separates
+              intro hr
+              have hpre' : pre = [] := by rw [← hpre]; simp [hr]
+              rw [hpre', List.nil_append]
+              have hctl : ∀ k ∈ penDelta caps pen (clipCell cw (ns.length + 1) n0).style, ∀ g, k ≠ Tok.text g :=
+                penDelta_no_text caps pen _
+              have := adjOk_ctl_prefix joins _ ([glyphTok cw caps (clipCell cw (ns.length + 1) n0)] ++ e) hctl p
+              rw [show (penDelta caps pen (clipCell cw (ns.length + 1) n0).style ++
+                    [glyphTok cw caps (clipCell cw (ns.length + 1) n0)]) ++ e =
+                    penDelta caps pen (clipCell cw (ns.length + 1) n0).style ++
+                    ([glyphTok cw caps (clipCell cw (ns.length + 1) n0)] ++ e) by simp only [List.append_assoc]]
+              rw [this]
+              rcases glyphTok_cases cw caps (clipCell cw (ns.length + 1) n0) with ⟨g, hg⟩ | ⟨w, g, hg⟩
+              · rw [hg] at h2' hH ⊢
+                have h2'' : adjOk joins (some g) e = true := by simpa [tokText] using h2'
+                split
+                · -- directly after the previous cell's grapheme
+                  cases p with
+                  | none => simpa [adjOk] using h2''
+                  | some a =>
+                    have := adjOk_head joins a g _ hH
+                    simp [adjOk, this, h2'']
+                · simpa [adjOk] using h2''
+              · rw [hg] at h2' ⊢
+                have h2'' : adjOk joins none e = true := by simpa [tokText] using h2'
+                split <;> simpa [adjOk] using h2''
+
+
+theorem renderRowsS_adjOk_tight (joins : String → String → Bool) (cw : String → Nat) (caps : Caps) (refresh : Bool) :
+    ∀ (next last : Grid) (row : Nat) (st : RSt),
+      (∀ r ∈ next, adjOk joins none (headToks cw caps 0 r) = true) →
+      ∃ extra, (renderRowsS cw caps refresh row next last st).2.out = st.out ++ extra ∧
+        startsQuiet extra = true ∧ adjOk joins none extra = true := by
+  intro next
+  induction next with
+  | nil => intro last row st _; exact ⟨[], by simp [renderRowsS], rfl, rfl⟩
+  | cons n ns ih =>
+    intro last row st h
+    cases last with
+    | nil => exact ⟨[], by simp [renderRowsS], rfl, rfl⟩
+    | cons l ls =>
+      simp only [renderRowsS]
+      obtain ⟨e1, he1, h1, _⟩ := renderCellsS_adj joins cw caps refresh row n l 0 0 false 0 { st with reposition := true } none
+        (h n List.mem_cons_self)
+      obtain ⟨hq1, ha1⟩ := h1 rfl
+      obtain ⟨e2, he2, hq2, ha2⟩ := ih ls (row + 1)
+        (renderCellsS cw caps refresh row 0 0 false 0 n l { st with reposition := true }).2
+        (fun r hr => h r (List.mem_cons_of_mem _ hr))
+      refine ⟨e1 ++ e2, ?_, ?_, ?_⟩
+      · rw [he2, he1]; simp only [List.append_assoc]
+      · cases e1 with
+        | nil => simpa using hq2
+        | cons k rest => cases k <;> simp_all [startsQuiet]
+      · rw [adjOk_append_quiet joins e1 e2 hq2, ha2, ha1]; rfl
+
+/-- The whole frame, from the tight hypothesis: no two horizontally consecutive shown cells join. -/
+theorem renderFrameS_adjOk_tight (joins : String → String → Bool) (cw : String → Nat) (f : Frame)
+    (h : ∀ r ∈ f.next, adjOk joins none (headToks cw f.caps 0 r) = true) :
+    adjOk joins none (renderFrameS cw f).2 = true := by
+  unfold renderFrameS renderBodyS
+  generalize hpre : (if f.shapeLast ≠ f.shapeNext then [Tok.pointer f.shapeNext] else []) = pre
+  obtain ⟨e, he, hq, ha⟩ := renderRowsS_adjOk_tight joins cw f.caps f.refresh f.next f.last 0 { out := pre } h
+  generalize hres : renderRowsS cw f.caps f.refresh 0 f.next f.last { out := pre } = res at he
+  obtain ⟨last', st⟩ := res
+  simp only at he
+  simp only [hres, he]
+  -- body = pre ++ e ++ close ++ show; every piece but `e` consists of control sequences
+  have hbody : adjOk joins none (pre ++ e ++ (if st.pen.link ≠ "" then [Tok.osc8 "" ""] else []) ++
+      (if f.cursorNext.visible = true ∧ ¬ f.cursorLast.visible = true then showCursorToks f.cursorNext else [])) = true := by
+    have hpre' : adjOk joins none pre = true := by subst hpre; split <;> rfl
+    rw [List.append_assoc, List.append_assoc, adjOk_append_quiet joins pre _ ?_, hpre', Bool.true_and]
+    · rw [adjOk_append_quiet joins e _ ?_, ha, Bool.true_and]
+      · split <;> split <;> rfl
+      · split <;> split <;> rfl
+    · cases e with
+      | nil => split <;> split <;> rfl
+      | cons k rest => cases k <;> simp_all [startsQuiet]
+  exact flush_adjOk joins f.caps f.cursorNext f.cursorLast _ hbody
+
+
+
+/-- The heads of the walk are among the cells of the row, in order. -/
+theorem headToks_sublist (cw : String → Nat) (caps : Caps) :
+    ∀ (r : List Cell) (skip : Nat), (texts (headToks cw caps skip r)).Sublist (texts (shownRow cw caps r)) := by
+  intro r
+  induction r with
+  | nil => intro skip; cases skip <;> simp [headToks, shownRow, texts]
+  | cons n0 ns ih =>
+    intro skip
+    have hcons : texts (shownRow cw caps (n0 :: ns)) =
+        texts [glyphTok cw caps (clipCell cw (ns.length + 1) n0)] ++ texts (shownRow cw caps ns) := by
+      rw [← texts_append]; rfl
+    cases skip with
+    | succ k =>
+      simp only [headToks]
+      rw [hcons]
+      exact List.Sublist.trans (ih k) (List.sublist_append_right _ _)
+    | zero =>
+      simp only [headToks]
+      split
+      · rw [hcons]
+        have : texts (Tok.other "" :: headToks cw caps 0 ns) = texts (headToks cw caps 0 ns) := rfl
+        rw [this]
+        exact List.Sublist.trans (ih 0) (List.sublist_append_right _ _)
+      · rw [hcons]
+        have : texts (glyphTok cw caps (clipCell cw (ns.length + 1) n0) :: headToks cw caps (advance cw (clipCell cw (ns.length + 1) n0)) ns) =
+            texts [glyphTok cw caps (clipCell cw (ns.length + 1) n0)] ++
+              texts (headToks cw caps (advance cw (clipCell cw (ns.length + 1) n0)) ns) := by
+          rw [← texts_append]; rfl
+        rw [this]
+        exact List.Sublist.append (List.Sublist.refl _) (ih _)
+
+/-- The row-pairwise hypothesis implies the tight one. -/
+theorem tight_of_pairwise (joins : String → String → Bool) (cw : String → Nat) (caps : Caps) (r : List Cell)
+    (h : (texts (shownRow cw caps r)).Pairwise (fun a b => joins a b = false)) :
+    adjOk joins none (headToks cw caps 0 r) = true := by
+  apply adjOk_of_pairwise joins _ none
+  simp only [Option.toList, List.nil_append]
+  exact List.Pairwise.sublist (headToks_sublist cw caps r 0) h
+
 end VaxisModel.Lemmas.RenderCluster
